@@ -35,6 +35,13 @@ Proof. induction l as [|x l IH]; simpl; auto. intros H. rewrite (H x) by auto. r
 Lemma flat_map_ext_in_local {A B} (f g : A -> list B) l : (forall x, In x l -> f x = g x) -> flat_map f l = flat_map g l.
 Proof. induction l as [|x l IH]; simpl; auto. intros H. rewrite (H x) by auto. rewrite IH; auto. Qed.
 
+Lemma beq_sym_l a b : beq a b = beq b a.
+Proof.
+  destruct (beq a b) eqn:E.
+  - apply beq_eq in E. subst. symmetry. apply beq_refl.
+  - symmetry. apply beq_neq. apply beq_neq in E. congruence.
+Qed.
+
 Lemma indexed_In {A} (l : list A) : forall k i x, In (i, x) (indexed k l) -> (k <= i)%nat /\ nth_error l (i - k) = Some x.
 Proof.
   induction l as [|a l IH]; simpl; intros k i x H; [contradiction|].
@@ -374,7 +381,8 @@ Definition lit_decl (ups : list pupd) (i : nat) (d : decl) : decl :=
   end.
 
 Definition lit_pom (ups : list pupd) (i : nat) (p : pom) : pom :=
-  {| pm_path := pm_path p; pm_decls := map (lit_decl ups i) (pm_decls p); pm_props := pm_props p |}.
+  {| pm_path := pm_path p; pm_decls := map (lit_decl ups i) (pm_decls p); pm_props := pm_props p;
+     pm_empty_mgmt := pm_empty_mgmt p |}.
 
 Definition lit_chain (c : chain) (ups : list pupd) : chain :=
   map (fun ip => lit_pom ups (fst ip) (snd ip)) (indexed O c).
@@ -498,6 +506,16 @@ Proof.
     + destruct (is_nil (dl_ver d)); reflexivity.
 Qed.
 
+Lemma insert_added_nil ds : insert_added [] ds = ds.
+Proof. induction ds as [|d r IH]; simpl; auto. destruct (front_origin d); [rewrite IH|]; reflexivity. Qed.
+
+Lemma added_pairs_lit c ups : added_pairs (map (patch_of c) ups) = [].
+Proof.
+  unfold added_pairs. rewrite flat_map_nil; [reflexivity|].
+  intros q Hq. apply in_map_iff in Hq as (u & <- & _). unfold patch_of.
+  destruct (nth_error c (pu_pom u)); reflexivity.
+Qed.
+
 Lemma write_pom_lit c ups i p :
   chain_wf c = true -> NoDup (map pu_key ups) -> (forall u, In u ups -> lit_ok c u) ->
   In (i, p) (indexed O c) ->
@@ -505,6 +523,12 @@ Lemma write_pom_lit c ups i p :
 Proof.
   intros HW HN HL Hip. unfold write_pom.
   rewrite (all_some_map _ (lit_decl ups i)) by (intros d Hd; apply (write_decl_lit c ups i p d); auto).
+  rewrite added_pairs_lit. simpl map. rewrite insert_added_nil.
+  assert (Ed : match i with
+               | O => if pm_empty_mgmt p then map (lit_decl ups i) (pm_decls p) else map (lit_decl ups i) (pm_decls p)
+               | S _ => map (lit_decl ups i) (pm_decls p) end
+               = map (lit_decl ups i) (pm_decls p)) by (destruct i; [destruct (pm_empty_mgmt p)|]; reflexivity).
+  rewrite Ed.
   unfold lit_pom. f_equal. f_equal. apply map_id_on_local. intros f _. unfold write_prop.
   rewrite preset_no_prop. reflexivity.
 Qed.
@@ -584,5 +608,180 @@ Proof.
   - intros [i p] _. simpl. unfold write_pom.
     rewrite (all_some_map _ (fun d => d)) by (intros; apply write_decl_nil).
     rewrite map_id. rewrite (map_id_on_local (write_prop [] (patch_path i p))) by reflexivity.
-    destruct p; reflexivity.
+    unfold added_pairs. simpl. rewrite insert_added_nil. destruct p as [? ? ? e], i; [destruct e|]; reflexivity.
+Qed.
+
+(* ------------------------------------------------------------------ added dependencyManagement entries *)
+Definition add_main (c : chain) (u : pupd) : chain :=
+  match c with
+  | p :: r => {| pm_path := pm_path p;
+                 pm_decls := insert_added [added_decl (pu_key u, pu_to u)] (pm_decls p);
+                 pm_props := pm_props p; pm_empty_mgmt := pm_empty_mgmt p |} :: r
+  | [] => []
+  end.
+
+Lemma not_declared_no_original c key : declared c key = false -> original_dependency c key = None.
+Proof.
+  intros H. unfold original_dependency. apply find_none_iff_local. intros [fo d] Hin.
+  apply orig_reqs_In in Hin as (i & p & Hip & Hd & _ & _). simpl.
+  destruct (beq key (dl_key d) && negb (is_nil (dl_ver d))) eqn:E; auto.
+  assert (declared c key = true); [|congruence].
+  unfold declared. apply existsb_exists. exists (i, d). split; [apply all_decls_In; eauto|exact E].
+Qed.
+
+Lemma dep_patches_one k t pa o :
+  dep_patches_at [DepPatch [] MANAGEMENT k t false] pa o = if beq [] pa && beq MANAGEMENT o then [(k, t)] else [].
+Proof. unfold dep_patches_at. cbn [flat_map]. rewrite app_nil_r. reflexivity. Qed.
+
+Lemma MGMT_PARENT : beq MANAGEMENT PARENT = false. Proof. reflexivity. Qed.
+
+Lemma write_decl_add c u pa i d :
+  declared c (pu_key u) = false -> In (i, d) (all_decls c) ->
+  write_decl [DepPatch [] MANAGEMENT (pu_key u) (pu_to u) false] pa d = Some d.
+Proof.
+  intros HD Hin. unfold write_decl. rewrite dep_patches_one.
+  destruct (beq (dl_origin d) PARENT) eqn:Ep.
+  - apply beq_eq in Ep. rewrite Ep, MGMT_PARENT, andb_false_r. reflexivity.
+  - destruct (is_nil (dl_ver d)) eqn:Ev; [reflexivity|].
+    destruct (beq [] pa && beq MANAGEMENT (dl_origin d)); [|reflexivity]. cbn [find fst].
+    destruct (beq (pu_key u) (dl_key d)) eqn:Ek; [|reflexivity].
+    exfalso. assert (declared c (pu_key u) = true); [|congruence].
+    unfold declared. apply existsb_exists. exists (i, d). split; auto. cbn [snd]. rewrite Ek, Ev. reflexivity.
+Qed.
+
+Lemma map_indexed_succ {A} (g : nat * A -> A) (l : list A) : forall k,
+  (forall i x, (0 < i)%nat -> g (i, x) = x) -> (0 < k)%nat -> map g (indexed k l) = l.
+Proof.
+  induction l as [|a l IH]; intros k Hg Hk; simpl; [reflexivity|].
+  rewrite Hg by exact Hk. rewrite IH; auto.
+Qed.
+
+Lemma write_chain_add c u :
+  c <> [] -> declared c (pu_key u) = false -> (forall p r, c = p :: r -> pm_empty_mgmt p = false) ->
+  write_chain c [u] = Some (add_main c u).
+Proof.
+  intros Hne HD HE. unfold write_chain. cbn [build_patches]. unfold build_one.
+  rewrite (not_declared_no_original c (pu_key u) HD). simpl app.
+  set (ps := [DepPatch [] MANAGEMENT (pu_key u) (pu_to u) false]).
+  assert (Ea : added_pairs ps = [(pu_key u, pu_to u)]) by reflexivity.
+  set (g := fun ip : nat * pom => match fst ip with
+                                  | O => {| pm_path := pm_path (snd ip);
+                                            pm_decls := insert_added [added_decl (pu_key u, pu_to u)] (pm_decls (snd ip));
+                                            pm_props := pm_props (snd ip); pm_empty_mgmt := pm_empty_mgmt (snd ip) |}
+                                  | S _ => snd ip
+                                  end).
+  rewrite (all_some_map _ g).
+  - destruct c as [|p r]; [contradiction|]. simpl. unfold g at 1. simpl. f_equal. f_equal.
+    apply map_indexed_succ; [|lia]. intros i x Hi. unfold g. simpl. destruct i; [lia|reflexivity].
+  - intros [i p] Hip. simpl. unfold write_pom.
+    rewrite (all_some_map _ (fun d => d)).
+    + rewrite map_id, Ea. rewrite (map_id_on_local (write_prop ps (patch_path i p))) by reflexivity.
+      unfold g. simpl. destruct i; [|destruct p; reflexivity].
+      assert (Hem : pm_empty_mgmt p = false).
+      { destruct c as [|p' r']; [contradiction|]. simpl in Hip. destruct Hip as [Hip|Hip].
+        - inversion Hip; subst. apply (HE p r' eq_refl).
+        - apply indexed_In in Hip as [Hle _]. lia. }
+      rewrite Hem. reflexivity.
+    + intros d Hd. apply (write_decl_add c u _ i d HD). apply all_decls_In. eauto.
+Qed.
+
+Lemma add_main_props c u : props_of (add_main c u) = props_of c.
+Proof. destruct c; reflexivity. Qed.
+
+Definition entry_of (c : chain) (i : nat) (d : decl) : nat * bytes * bytes * bytes :=
+  (i, dl_origin d, dl_key d, eff c i d).
+
+Lemma eff_all_entries c :
+  eff_all c = flat_map (fun ip => map (fun d => entry_of c (fst ip) d) (pm_decls (snd ip))) (indexed O c).
+Proof. reflexivity. Qed.
+
+Lemma eff_all_cons p r (c : chain) k :
+  flat_map (fun ip => map (fun d => entry_of c (fst ip) d) (pm_decls (snd ip))) (indexed k (p :: r)) =
+  map (entry_of c k) (pm_decls p) ++
+  flat_map (fun ip => map (fun d => entry_of c (fst ip) d) (pm_decls (snd ip))) (indexed (S k) r).
+Proof. reflexivity. Qed.
+
+Lemma filter_insert_added (f : decl -> bool) a ds :
+  f a = false -> (forall d, In d ds -> f d = true) ->
+  filter f (insert_added [a] ds) = ds.
+Proof.
+  intros Ha Hd. induction ds as [|d r IH]; simpl.
+  - rewrite Ha. reflexivity.
+  - destruct (front_origin d).
+    + simpl. rewrite (Hd d) by (left; reflexivity). rewrite IH; auto. intros; apply Hd; right; auto.
+    + simpl. rewrite Ha. rewrite (Hd d) by (left; reflexivity). f_equal.
+      clear IH. induction r as [|x r IH]; simpl; auto. rewrite (Hd x) by (right; left; reflexivity).
+      f_equal. apply IH. intros y Hy. apply Hd. destruct Hy as [->|Hy]; [left; reflexivity|right; right; exact Hy].
+Qed.
+
+Lemma In_insert_added a ds : In a (insert_added [a] ds).
+Proof.
+  induction ds as [|d r IH]; simpl; [left; reflexivity|].
+  destruct (front_origin d); [right; exact IH|left; reflexivity].
+Qed.
+
+Lemma filter_map_comm {A B} (f : B -> bool) (g : A -> B) l : filter f (map g l) = map g (filter (fun x => f (g x)) l).
+Proof. induction l as [|x l IH]; simpl; auto. destruct (f (g x)); simpl; rewrite IH; reflexivity. Qed.
+
+Lemma filter_all_true {A} (f : A -> bool) l : (forall x, In x l -> f x = true) -> filter f l = l.
+Proof. induction l as [|x l IH]; simpl; auto. intros H. rewrite (H x) by auto. rewrite IH; auto. Qed.
+
+Lemma add_main_spec c u : d_add c u = true -> decl_spec_all c [u] (add_main c u) = true.
+Proof.
+  unfold d_add. intros H. apply andb_true_iff in H as [H HM]. apply andb_true_iff in H as [H HA].
+  apply andb_true_iff in H as [HI HT]. apply negb_true_iff in HA.
+  destruct c as [|p r]; [discriminate|]. apply andb_true_iff in HM as [HM _]. apply negb_true_iff in HM.
+  unfold decl_spec_all. apply andb_true_iff. split.
+  - (* everything but the added entry is as before *)
+    assert (E : filter (fun e => negb (is_added_entry (p :: r) [u] e)) (eff_all (add_main (p :: r) u)) = want_all (p :: r) [u]);
+      [|rewrite E; apply beq4_refl].
+    assert (Hw : want_all (p :: r) [u] = eff_all (p :: r)).
+    { unfold want_all, eff_all. apply flat_map_ext_in_local. intros [i q] Hiq. apply map_ext_in. intros d Hd.
+      cbn [find fst snd].
+      assert (addresses u i d = false); [|rewrite H; reflexivity].
+      destruct (addresses u i d) eqn:EA; auto.
+      assert (existsb (fun id => addresses u (fst id) (snd id)) (all_decls (p :: r)) = true); [|congruence].
+      apply existsb_exists. exists (i, d). split; [apply all_decls_In; eauto|exact EA]. }
+    rewrite Hw. rewrite !eff_all_entries.
+    assert (Ee : forall i d, entry_of (add_main (p :: r) u) i d = entry_of (p :: r) i d).
+    { intros. unfold entry_of, eff. rewrite add_main_props. reflexivity. }
+    unfold add_main. rewrite !eff_all_cons. cbn [pm_decls].
+    rewrite filter_app. f_equal.
+    + rewrite filter_map_comm.
+      rewrite (filter_insert_added _ (added_decl (pu_key u, pu_to u)) (pm_decls p)).
+      * apply map_ext. intros d. apply Ee.
+      * unfold entry_of, is_added_entry, added_decl. cbn [dl_origin dl_key fst snd existsb].
+        rewrite Nat.eqb_refl, !beq_refl, HI. reflexivity.
+      * intros d Hd. unfold entry_of, is_added_entry. cbn [existsb]. rewrite orb_false_r, Nat.eqb_refl. cbn [andb].
+        destruct (beq (dl_origin d) MANAGEMENT) eqn:Eo; [|reflexivity]. cbn [andb]. rewrite HI. cbn [andb].
+        destruct (beq (pu_key u) (dl_key d)) eqn:Ek; [|reflexivity]. exfalso.
+        assert (existsb (fun d => beq (dl_origin d) MANAGEMENT && beq (dl_key d) (pu_key u)) (pm_decls p) = true); [|congruence].
+        apply existsb_exists. exists d. split; auto. rewrite Eo, beq_sym_l, Ek. reflexivity.
+    + rewrite filter_all_true.
+      * apply flat_map_ext_in_local. intros [i q] _. apply map_ext. intros d. apply Ee.
+      * intros e He. apply in_flat_map in He as ([i q] & Hiq & He). apply in_map_iff in He as (d & <- & _).
+        apply indexed_In in Hiq as [Hi _]. unfold entry_of, is_added_entry. destruct i; [lia|reflexivity].
+  - (* the added requirement is a project-level management declaration standing for VersionTo *)
+    cbn [forallb]. rewrite andb_true_r, HI. cbn [negb orb].
+    apply existsb_exists. exists (O, MANAGEMENT, pu_key u, pu_to u). split.
+    + rewrite eff_all_entries. unfold add_main. rewrite eff_all_cons. apply in_or_app. left. cbn [pm_decls].
+      apply in_map_iff. exists (added_decl (pu_key u, pu_to u)). split; [|apply In_insert_added].
+      unfold entry_of, eff, added_decl. cbn [dl_origin dl_key dl_ver fst snd]. rewrite (interpolate_literal _ _ HT). reflexivity.
+    + unfold entry_eqb. cbn [beq4]. rewrite Nat.eqb_refl, !beq_refl. reflexivity.
+Qed.
+
+Lemma pom_decl_added_management_present_lemma c u :
+  d_add c u = true ->
+  write_chain c [u] = Some (add_main c u) /\ decl_spec_all c [u] (add_main c u) = true /\
+  exists p r p', c = p :: r /\ add_main c u = p' :: r /\ In (added_decl (pu_key u, pu_to u)) (pm_decls p').
+Proof.
+  intros HD. pose proof HD as HD'. unfold d_add in HD'.
+  apply andb_true_iff in HD' as [H HM]. apply andb_true_iff in H as [H _]. apply andb_true_iff in H as [HI _].
+  unfold is_add in HI. apply negb_true_iff in HI.
+  destruct c as [|p r]; [discriminate|].
+  apply andb_true_iff in HM as [_ HE]. apply negb_true_iff in HE.
+  repeat split.
+  - apply write_chain_add; [discriminate|exact HI|]. intros p1 r1 E. inversion E; subst. exact HE.
+  - apply add_main_spec. exact HD.
+  - exists p, r. eexists. repeat split. simpl. apply In_insert_added.
 Qed.
